@@ -45,88 +45,56 @@ def allclose_rules(repo, res):
     fn = repo.mod(ARR).func("allclose_units")
     res.fn(fn)
     actual, desired, rtol, atol = fn.params[:4]
-    body = fn.body
-    # linear sequence of top-level statements with their index
-    idx = {id(s): i for i, s in enumerate(body)}
+    # Value flow to the verdict: on every path that reaches np.allclose, each argument is written out with all locals
+    # substituted (engine.sem.summarise), e.g.  unyt_array(desired).in_units(unyt_array(actual).units).value
+    from engine.sem import summarise
 
-    def top_assigns(name):
-        out = []
-        for i, s in enumerate(body):
-            for n in ast.walk(s):
-                if isinstance(n, ast.Assign) and norm(n.targets[0]) == name:
-                    out.append((i, n))
-        return out
+    sums = summarise(fn)
+    finals = []
+    for x in sums:
+        if x.kind == "return" and x.value.startswith("np.allclose("):
+            call = ast.parse(x.value).body[0].value
+            finals.append((x, [norm(a_).replace(".to(", ".in_units(") for a_ in call.args], [k.arg for k in call.keywords]))
+    if len(finals) < 2:
+        raise AnalysisError(f"{fn.where()}: the final np.allclose(...) was not found on both atol routes")
+    A = f"unyt_array({actual})"
+    D = f"unyt_array({desired})"
+    want_act = f"{A}.value"
+    want_des = f"{D}.in_units({A}.units).value"
+    want_rt = f"unyt_array({rtol}).value"
+    ok_wrap = all(len(args) == 4 and args[0].startswith(A) and args[1].startswith(D) for _, args, _ in finals)
+    res.check(ok_wrap, "wrap-inputs", fn.where(), "both inputs are wrapped as unyt arrays first (bare data become dimensionless)", rid=r1)
+    res.check(all(args[1] == want_des for _, args, _ in finals), "desired-converted", fn.where(), "desired must be converted into actual's unit before the comparison", want_des, sorted({args[1] for _, args, _ in finals}), rid=r1)
+    unit_route = [(x, args) for x, args, _ in finals if x.has(f"isinstance({atol}, unyt_array)", True)]
+    bare_route = [(x, args) for x, args, _ in finals if x.has(f"isinstance({atol}, unyt_array)", False)]
+    ok_at = bool(unit_route) and all(args[3] == f"{atol}.in_units({A}.units).value" for _, args in unit_route) and bool(bare_route) and all(args[3].endswith(f".in_units({A}.units).value") and args[3].startswith(f"unyt_quantity({atol}, ") for _, args in bare_route)
+    res.check(ok_at, "atol-converted", fn.where(), "atol must be converted into actual's unit before the comparison", f"<atol>.in_units({A}.units).value", sorted({args[3] for _, args, _ in finals}), rid=r1)
+    stripped = all(args[0] == want_act and args[1].endswith(".value") and args[2] == want_rt and args[3].endswith(".value") for _, args, _ in finals)
+    res.check(stripped, "strip-after-convert", fn.where(), "units are stripped only after all conversions (the stripped value is the converted one)", [want_act, want_des, want_rt], [args for _, args, _ in finals][:1], rid=r1)
+    res.check(all(kw == [None] for _, _, kw in finals), "final-compare", fn.where(), "the verdict is np.allclose(actual, desired, rtol, atol, **kwargs) on the converted values", rid=r1)
 
-    act_defs = top_assigns("act")
-    des_defs = top_assigns("des")
-    at_defs = top_assigns("at")
-    ok = act_defs and norm(act_defs[0][1].value) == f"unyt_array({actual})" and des_defs and norm(des_defs[0][1].value) == f"unyt_array({desired})"
-    res.check(ok, "wrap-inputs", fn.where(), "both inputs are wrapped as unyt arrays first (bare data become dimensionless)", rid=r1)
-    conv_des = [(i, n) for i, n in des_defs if norm(n.value) in ("des.in_units(act.units)", "des.to(act.units)")]
-    res.check(len(conv_des) == 1, "desired-converted", fn.where(), "desired must be converted into actual's unit before the comparison", found=[norm(n.value) for _, n in des_defs], rid=r1)
-    conv_at = [(i, n) for i, n in at_defs if norm(n.value) in ("at.in_units(act.units)", "at.to(act.units)")]
-    res.check(len(conv_at) == 1, "atol-converted", fn.where(), "atol must be converted into actual's unit before the comparison", found=[norm(n.value) for _, n in at_defs], rid=r1)
-    strips = {}
-    for name in ("act", "des", "rt", "at"):
-        for i, n in top_assigns(name):
-            if norm(n.value) in (f"{name}.value", f"{name}.v", f"{name}.d"):
-                strips[name] = i
-    last_conv = max([i for i, _ in conv_des + conv_at] or [-1])
-    res.check(set(strips) == {"act", "des", "rt", "at"} and min(strips.values()) > last_conv, "strip-after-convert", fn.where(), "units are stripped only after all conversions", found=strips, rid=r1)
-    rets = [n for n in body if isinstance(n, ast.Return)]
-    ok = len(rets) == 1 and norm(rets[0].value) == "np.allclose(act, des, rt, at, **kwargs)"
-    res.check(ok, "final-compare", fn.where(), "the verdict is np.allclose(actual, desired, rtol, atol, **kwargs) on the converted values", found=norm(rets[0].value) if rets else None, rid=r1)
-
-    # R2: which definition of des reaches unyt_quantity(atol, des.units)?
-    site = None
-    for i, s in enumerate(body):
-        for n in ast.walk(s):
-            if isinstance(n, ast.Call) and norm(n.func) == "unyt_quantity" and n.args and norm(n.args[0]) == atol:
-                site = (i, n)
-    if site is None:
-        raise AnalysisError(f"{fn.where()}: bare-atol wrapping site not found")
-    uarg = site[1].args[1] if len(site[1].args) > 1 else kwarg_of(site[1], "units")
-    utxt = norm(uarg) if uarg is not None else ""
-    ok = False
-    why = utxt
-    if utxt.endswith(".units"):
-        base = utxt[: -len(".units")]
-        if base == desired:
-            ok = True  # unit of a unit-carrying desired as passed in ... only valid if desired has units
-            ok = False
-            why = "desired may be bare; use the wrapped value"
-        else:
-            defs = [(i, n) for i, n in top_assigns(base) if i < site[0]]
-            if defs:
-                reaching = defs[-1][1]
-                ok = norm(reaching.value) == f"unyt_array({desired})"
-                why = f"{base} = {norm(reaching.value)}"
-    elif isinstance(uarg, ast.Name):
-        defs = [(i, n) for i, n in top_assigns(uarg.id) if i < site[0]]
-        if defs:
-            v = norm(defs[-1][1].value)
-            if v.endswith(".units"):
-                b2 = v[: -len(".units")]
-                d2 = [(i, n) for i, n in top_assigns(b2) if i < defs[-1][0]]
-                ok = bool(d2) and norm(d2[-1][1].value) == f"unyt_array({desired})"
-                why = f"{uarg.id} = {v}, {b2} = {norm(d2[-1][1].value) if d2 else '?'}"
-    res.check(ok, "bare-atol-unit", fn.where(site[1]), "a bare atol is documented to be in the units of `desired`, but the unit used is taken after `desired` has been converted to actual's unit", f"unit of unyt_array({desired})", why, rid=r2)
+    # R2: the unit given to a bare atol
+    if not bare_route:
+        raise AnalysisError(f"{fn.where()}: bare-atol route not found")
+    got = sorted({args[3] for _, args in bare_route})
+    want_bare = f"unyt_quantity({atol}, {D}.units).in_units({A}.units).value"
+    res.check(got == [want_bare], "bare-atol-unit", fn.where(), "a bare atol is documented to be in the units of `desired`, but the unit used is taken after `desired` has been converted to actual's unit", want_bare, got, rid=r2)
 
     # R3: error discipline in allclose_units
     handlers = [h for n in ast.walk(fn.node) if isinstance(n, ast.Try) for h in n.handlers]
-    ok = len(handlers) == 2
+    ok = len(handlers) >= 1
     for h in handlers:
         names = {norm(e) for e in (h.type.elts if isinstance(h.type, ast.Tuple) else [h.type])} if h.type is not None else {"bare"}
         ok &= names == {"UnitOperationError", "UnitConversionError"} and len(h.body) == 1 and norm(h.body[0]) == "return False"
-    res.check(ok, "allclose:handlers", fn.where(), "exactly the unit errors are turned into a False verdict", rid=r3)
-    rt = [n for n in body if isinstance(n, ast.If) and "rt.units.is_dimensionless" in norm(n.test)]
-    ok = len(rt) == 1 and norm(rt[0].test) == "not rt.units.is_dimensionless" and is_raise_of(rt[0].body[0], "RuntimeError")
-    rdef = top_assigns("rt")
-    ok = ok and rdef and norm(rdef[0][1].value) == f"unyt_array({rtol})"
+    # every conversion happens inside such a try
+    convs = [c for c in ast.walk(fn.node) if isinstance(c, ast.Call) and isinstance(c.func, ast.Attribute) and c.func.attr in ("in_units", "to")]
+    guarded = [c for t in ast.walk(fn.node) if isinstance(t, ast.Try) for st in t.body for c in ast.walk(st) if isinstance(c, ast.Call)]
+    ok &= bool(convs) and all(any(c is g for g in guarded) for c in convs)
+    res.check(ok, "allclose:handlers", fn.where(), "exactly the unit errors are turned into a False verdict, and every conversion is covered by such a handler", rid=r3)
+    rt_raise = [x for x in sums if x.kind == "raise" and x.value.startswith("RuntimeError(")]
+    ok = len(rt_raise) >= 1 and all(x.has(f"unyt_array({rtol}).units.is_dimensionless", False) for x in rt_raise) and all(x.has(f"unyt_array({rtol}).units.is_dimensionless", True) for x, _, _ in finals)
     res.check(ok, "allclose:rtol", fn.where(), "an rtol with units must raise RuntimeError", rid=r3)
-    ib = [n for n in body if isinstance(n, ast.If) and norm(n.test) == f"not isinstance({atol}, unyt_array)"]
-    ok = len(ib) == 1 and any(norm(s) == f"at = {atol}" for s in ib[0].orelse)
-    res.check(ok, "allclose:atol-with-units", fn.where(), "an atol that carries units is used in its own unit", rid=r3)
+    res.check(bool(unit_route) and all(args[3].startswith(f"{atol}.") for _, args in unit_route), "allclose:atol-with-units", fn.where(), "an atol that carries units is used in its own unit", rid=r3)
 
 
 def comparison_handlers(repo, res):
@@ -136,42 +104,54 @@ def comparison_handlers(repo, res):
     fn = af.func("_array_comp_helper")
     res.fn(fn)
     a, b = fn.params
+    from engine.sem import summarise
+
+    UA, UB = f"getattr({a}, 'units', NULL_UNIT)", f"getattr({b}, 'units', NULL_UNIT)"
     good = True
     n = 0
-    defs = {norm(s.targets[0]): norm(s.value) for s in fn.body if isinstance(s, ast.Assign)}
-    good &= defs.get("au") == f"getattr({a}, 'units', NULL_UNIT)" and defs.get("bu") == f"getattr({b}, 'units', NULL_UNIT)"
-    for p in enum_paths(fn.body):
-        fm = dict((t, tr) for t, tr, _ in path_facts(p))
-        stm = [norm(ev[1]) for ev in p if ev[0] == "stmt"]
-        if fm.get("bu != au") is True and fm.get("au != NULL_UNIT") is True and fm.get("bu != NULL_UNIT") is True:
+    sums = summarise(fn)
+    for x in sums:
+        differ = x.has(f"{UB} == {UA}", False) or x.has(f"{UA} == {UB}", False)
+        both = x.has(f"{UA} == NULL_UNIT", False) and x.has(f"{UB} == NULL_UNIT", False)
+        good &= x.kind == "return"
+        if x.kind != "return":
+            continue
+        val = x.value.replace(".to(", ".in_units(")
+        if differ and both:
             n += 1
-            good &= f"{b} = {b}.in_units(au)" in stm or f"{b} = {b}.to(au)" in stm
-        good &= p[-1][0] == "return" and norm(p[-1][1].value) == f"({a}, {b})"
-    res.check(good and n == 1, "_array_comp_helper", fn.where(), "when both operands carry different units the second is converted into the first operand's unit; operands are returned in order", rid=r1)
+            good &= val == f"({a}, {b}.in_units({UA}))"
+        else:
+            # nothing is rescaled; a bare operand may be given the other's unit (multiplication by the unit)
+            good &= ".in_units(" not in val and val.startswith("(")
+    res.check(good and n >= 1, "_array_comp_helper", fn.where(), "when both operands carry different units the second is converted into the first operand's unit; operands are returned in order", found=[(sorted(x.facts), x.value) for x in sums][:3], rid=r1)
     for h in ("isclose", "allclose"):
         f = af.func(h)
         res.fn(f)
-        first = f.body[0]
-        ok = isinstance(first, ast.Assign) and norm(first) == f"({f.params[0]}, {f.params[1]}) = _array_comp_helper({f.params[0]}, {f.params[1]})".replace("(a, b) =", "a, b =")
-        ok = isinstance(first, ast.Assign) and norm(first.value) == f"_array_comp_helper({f.params[0]}, {f.params[1]})" and norm(first.targets[0]) == f"({f.params[0]}, {f.params[1]})"
+        # the values NumPy compares are the helper's results, in order
+        impl = [c for c in ast.walk(f.node) if isinstance(c, ast.Call) and isinstance(c.func, ast.Attribute) and c.func.attr == "_implementation"]
+        helper = [n_ for n_ in ast.walk(f.node) if isinstance(n_, ast.Assign) and isinstance(n_.value, ast.Call) and norm(n_.value.func) == "_array_comp_helper"]
+        ok = len(helper) == 1 and [norm(x) for x in helper[0].value.args] == [f.params[0], f.params[1]] and isinstance(helper[0].targets[0], ast.Tuple) and len(helper[0].targets[0].elts) == 2
+        if ok:
+            n0, n1 = [norm(e) for e in helper[0].targets[0].elts]
+            ok = len(impl) >= 1 and all(len(c.args) >= 2 and any(isinstance(y, ast.Name) and y.id == n0 for y in ast.walk(c.args[0])) and any(isinstance(y, ast.Name) and y.id == n1 for y in ast.walk(c.args[1])) for c in impl) and helper[0].lineno < min(c.lineno for c in impl)
         res.check(ok, f"{h}:helper-first", f.where(), f"np.{h} must bring its operands to a common unit before comparing", rid=r1)
     for h in ("array_equal", "array_equiv"):
         f = af.func(h)
         res.fn(f)
         a1, a2 = f.params[:2]
+        U1, U2 = f"getattr({a1}, 'units', NULL_UNIT)", f"getattr({a2}, 'units', NULL_UNIT)"
         ok = True
         n = 0
-        for p in enum_paths(f.body):
-            fm = dict((t, tr) for t, tr, _ in path_facts(p))
-            end = p[-1]
-            if fm.get("u2 != u1") is True or fm.get("u1 != u2") is True:
+        sums = summarise(f)
+        for x in sums:
+            differ = x.has(f"{U2} == {U1}", False) or x.has(f"{U1} == {U2}", False)
+            same = x.has(f"{U2} == {U1}", True) or x.has(f"{U1} == {U2}", True)
+            if differ:
                 n += 1
-                ok &= end[0] == "return" and norm(end[1].value) == "False"
+                ok &= x.kind == "return" and x.value == "False"
             else:
-                ok &= end[0] == "return" and f"np.{h}._implementation" in norm(end[1].value)
-        defs = {norm(s.targets[0]): norm(s.value) for s in f.body if isinstance(s, ast.Assign)}
-        ok &= defs.get("u1") == f"getattr({a1}, 'units', NULL_UNIT)" and defs.get("u2") == f"getattr({a2}, 'units', NULL_UNIT)"
-        res.check(ok and n == 1, f"{h}:units-first", f.where(), f"np.{h} answers False when the units differ (compared with !=) and compares data otherwise", rid=r3)
+                ok &= same and x.kind == "return" and f"np.{h}._implementation" in x.value
+        res.check(ok and n >= 1, f"{h}:units-first", f.where(), f"np.{h} answers False when the units differ (compared with !=) and compares data otherwise", found=[(sorted(x.facts), x.value) for x in sums][:3], rid=r3)
 
 
 def testing_helpers(repo, res):
@@ -190,14 +170,22 @@ def testing_helpers(repo, res):
     fn = t.func("assert_array_equal_units")
     res.fn(fn)
     x, y = fn.params[:2]
-    calls = [norm(c) for c in ast.walk(fn.node) if isinstance(c, ast.Call)]
-    ok = f"assert_array_equal({x}, {y}, **{fn.kwarg})" in calls
-    ifs = [n for n in fn.body if isinstance(n, ast.If)]
-    ok &= len(ifs) == 1 and is_raise_of(ifs[0].body[0], "AssertionError")
-    if ifs:
-        tt = norm(ifs[0].test)
-        ok &= tt == f"not (xu := getattr({x}, 'units', NULL_UNIT)) == (yu := getattr({y}, 'units', NULL_UNIT))"
-    res.check(ok, "assert_array_equal_units", fn.where(), "values are compared with NumPy and units with ==; a difference raises AssertionError", rid=r3)
+    from engine.sem import summarise
+
+    UX, UY = f"getattr({x}, 'units', NULL_UNIT)", f"getattr({y}, 'units', NULL_UNIT)"
+    ok = True
+    n_raise = n_ok = 0
+    sums = summarise(fn)
+    for s_ in sums:
+        cmp_called = any(e.startswith(f"assert_array_equal({x}, {y}") for e in s_.effects)
+        differ = s_.has(f"{UX} == {UY}", False) or s_.has(f"{UY} == {UX}", False)
+        if s_.kind == "raise":
+            n_raise += 1
+            ok &= differ and s_.value.startswith("AssertionError(")
+        else:
+            n_ok += 1
+            ok &= cmp_called and not differ
+    res.check(ok and n_raise >= 1 and n_ok >= 1, "assert_array_equal_units", fn.where(), "values are compared with NumPy and units with ==; a difference raises AssertionError", found=[(sorted(s_.facts), s_.kind, s_.effects) for s_ in sums][:3], rid=r3)
 
 
 def decorators(repo, res):
@@ -226,11 +214,27 @@ def decorators(repo, res):
     ok = ok and isinstance(last, ast.Return) and last.value is calls_f[0]
     res.check(ok, "accepts:check-before-call", acc.where(nf), "every TypeError precedes the single call f(*args, **kwargs) whose result is returned unchanged", rid=r4)
     loop = [n for n in nf.body if isinstance(n, ast.For)]
-    ok = len(loop) == 1 and norm(loop[0].iter) == "chain(zip(names_of_args, args), kwargs.items())"
+    from engine.core import FuncInfo
+    from engine.sem import canon_expr, summarise
+
+    nfi = FuncInfo(d, "accepts.new_f", nf)
+    ok = len(loop) == 1 and canon_expr(loop[0].iter, nfi) in ("chain(zip(names_of_args, args), kwargs.items())",) and isinstance(loop[0].target, ast.Tuple) and len(loop[0].target.elts) == 2
+    found = None
     if ok:
-        txt = norm(loop[0])
-        ok = "if arg_name in arg_units" in txt and "dimension = arg_units[arg_name]" in txt and "if not _has_dimensions(arg_value, dimension)" in txt
-    res.check(ok, "accepts:all-arguments", acc.where(nf), "positional and keyword arguments are both checked against the declared dimension", rid=r4)
+        an, av = [norm(e) for e in loop[0].target.elts]
+        sums = summarise(nfi, body=loop[0].body, keep={an, av, "arg_units"})
+        found = [(sorted(x.facts), x.kind) for x in sums]
+        n_raise = 0
+        for x in sums:
+            declared = x.has(f"{an} in arg_units", True)
+            wrong = x.has(f"_has_dimensions({av}, arg_units[{an}])", False)
+            if x.kind == "raise":
+                n_raise += 1
+                ok &= declared and wrong and x.value.startswith("TypeError(")
+            else:
+                ok &= not (declared and wrong)
+        ok &= n_raise >= 1
+    res.check(ok, "accepts:all-arguments", acc.where(nf), "positional and keyword arguments are both checked against the declared dimension: a declared argument whose value does not have that dimension raises TypeError, nothing else does", found=found, rid=r4)
     ret = d.func("returns")
     res.fn(ret)
     newf = [n for n in ast.walk(ret.node) if isinstance(n, ast.FunctionDef) and n.name == "new_f"]
